@@ -25,11 +25,12 @@ pub fn components_table() -> serde_json::Value {
         "characterised_by_experiment": {
             "what": "packages/beff-wasm/ts-node/bundler.ts of the working tree is type-stripped and run under Node with the committed tsc-slim resolver (stand-ins for the wasm package, chalk, code-frame); js/hostprobe.mjs asks it whether resolve_import keeps positive / negative answers from one build to the next and whether a kept answer survives the deletion of its file; SimHost mirrors what was seen. The resolver model is compared with the real resolveModuleName on 400 seeded file layouts",
             "host_model": host_model_json(),
-            "js_host_leg_of_C14": json_file("hostleg.json")
+            "js_host_leg_of_C14": json_file("hostleg.json"),
+            "js_host_leg_of_C10": json_file("hostdet.json")
         },
         "stub": [
             "bundler.ts host functions + commandeer.ts watch loop + chokidar + tsc-slim resolveModuleName -> SimHost / deliver(f) / resolve_in (written from the sources, cache lifetime and resolver answers checked against the real code by js/hostprobe.mjs)",
-            "bundle-to-disk.ts finalizeParserV2File -> string concatenation re-stated in tools.rs (self-tested against committed e2e outputs)"
+            "bundle-to-disk.ts finalizeParserV2File -> string concatenation re-stated in tools.rs (self-tested against committed e2e outputs); every fourth module of the Node leg and the JavaScript legs of C10 / C14 run the working tree's own bundle-to-disk.ts instead"
         ],
         "not_run": ["wasm-bindgen export wrappers, JsValue marshalling, init()"],
         "simulated": ["OS randomness (getrandom) for std HashMap keys", "file system", "change notifications", "host read/resolve faults"],
